@@ -35,6 +35,9 @@ CORPUS = [
     ("@a\n@b\nasync   def  zeta(): pass\n", ['zeta']),
     ("class Outer:\n    @staticmethod\n    def inner(classy): pass\n", ['Outer', 'inner']),
     ("def definer(): pass\n", ['definer']),
+    # a form feed (page separator) is white space for the parser, not a line boundary
+    ("x = 1\n\x0c\nimport os as operating\ndef paged(): pass\n", ['operating', 'paged']),
+    ("first = 1\r\nimport os as crlf\r\n", ['crlf']),
     ("class classic: pass\n", ['classic']),
 ]
 
@@ -125,8 +128,14 @@ def model(repo):
         nchecked = 0
         for src, names in CORPUS:
             tree = ast.parse(src)
-            lines = src.splitlines()
-            scope = Obj(ss, {'source': Obj(facts.classes.get('Unresolved') or ss, {'lines': list(lines), 'filename': '/p/x.py'}, 'source')}, 'scope')
+            # the lines the parser numbers (our reference) and the lines supp's own Source gives the text search
+            lines = src.replace('\r\n', '\n').replace('\r', '\n').split('\n')
+            try:
+                source = it.call(it.lookup_global('supp/util.py', 'Source'), [src, '/p/x.py'], {})
+                it.getattr(source, 'lines')
+            except (InterpRaise, Uninterpretable) as e:
+                raise AnalysisError('util.Source is outside the interpretable subset: %s' % e)
+            scope = Obj(ss, {'source': source}, 'scope')
             bindings = []
             for node in ast.walk(tree):
                 if isinstance(node, (ast.Import, ast.ImportFrom)):
